@@ -174,6 +174,11 @@ class ScipyOptimizer(LocalOptimizer):
             The individual who will be optimized.
         """
         num_params = individual.get_number_local_optimization_params()
+        if num_params == 0:
+            # nothing to optimize; several scipy methods fail on an empty
+            # parameter vector
+            individual.set_local_optimization_params(np.empty(0))
+            return
         c_0 = np.random.uniform(*self.options["param_init_bounds"], num_params)
         params = self._run_method_for_optimization(
             self._sub_routine_for_obj_fn, individual, c_0)
